@@ -48,7 +48,12 @@ class TokenBucket(SingleDevice):
             # allow this packet to be sent regardless of the bucket size.
             if packet.size > self.current_bucket:
                 yield env.timeout((packet.size - self.current_bucket) * 8.0 / self.rate)
-                self.current_bucket = 0.0
+                # credit the tokens of the time that really passed: the clock
+                # rounds `now + wait` (it may not move at all), and a rounding
+                # remainder that is dropped at every wait adds up
+                self.current_bucket += (
+                    self.rate * (env.now - self.update_time) / 8.0 - packet.size
+                )
                 self.update_time = env.now
             else:
                 self.current_bucket -= packet.size
